@@ -146,6 +146,18 @@ def run_c15(ctx):
                                     "row {} has {}={} but the function gives {}".format(
                                         {a_: kw[a_] for a_ in allowed_now}, o,
                                         short(r.get(o), 40), short(ev, 40)))
+            # the recorded arguments are complete: runner constants always, per-run
+            # constants of a direct run (those given when sowing a crop are the recorded
+            # C06 finding 'sow-time-constants-not-recorded' and are not asked for here)
+            recorded = dict(rconst)
+            if m_const and op == "sample_combos":
+                recorded["m"] = m_const
+            for ck, cv in recorded.items():
+                if ck not in r or not cell_same(r[ck], cv, approx):
+                    raise Violation("constant-not-recorded:" + op,
+                                    "row {} was computed with {}={} but its column holds {}".format(
+                                        {a_: kw[a_] for a_ in allowed_now}, ck, cv,
+                                        short(r.get(ck), 40)))
             for rk in res:
                 if rk in r and not is_missing(r[rk]):
                     raise Violation("resource-recorded:" + op, "resource {} is a column".format(rk))
